@@ -49,7 +49,13 @@ def _case(draw, tier):
             tpsi = [0.6, -0.8]
     fld = draw(gen.field(dev, fu, kinds=("zero", "constant", "ramp", "ramp", "float"), bmax=0.2 if scr else 0.5))
     cur = draw(gen.currents(dev, cu, kinds=("dict", "callable"))) if tp != "none" or draw(st.booleans()) else None
-    return dict(device=dev, field=fld, currents=cur,
+    # history: the same device object may have been simulated before with another terminal setting (a sweep over contact
+    # types in one process), and that earlier result may be the starting state of this run
+    prior = None
+    if draw(st.integers(0, 2)) == 0:
+        others = [k for k in ("zero", "none", "value") if k != tp]
+        prior = dict(kind=draw(st.sampled_from(others)), as_seed=draw(st.booleans()), nsteps=draw(st.integers(2, 8)))
+    return dict(device=dev, field=fld, currents=cur, prior=prior,
                 options=dict(dt_c=draw(gen.rf(0.05, 0.4)), dtmax_c=0.45, adaptive=draw(st.booleans()), adaptive_window=draw(st.integers(1, 6)),
                              include_screening=scr, screening_tolerance=1e-3, field_units=fu, current_units=cu,
                              nsteps=draw(st.integers(6, 25 if tier == "quick" else 40)), save_every=draw(st.sampled_from([1, 1, 2, 3])),
@@ -62,9 +68,20 @@ def strategy(tier):
 
 def _run(dev, spec, opts_over=None, with_currents=True):
     with sim.workdir():
+        seed = None
+        pr = spec.get("prior")
+        if pr and with_currents:
+            tp0 = {"zero": 0.0, "none": None, "value": [0.5, 0.0]}[pr["kind"]]
+            o0 = dict(spec["options"], terminal_psi=tp0, nsteps=int(pr["nsteps"]), save_every=100)
+            opts0 = build.make_options(o0, dev, output_file="earlier.h5")
+            sol0 = build.make_solver(dev, opts0, applied_vector_potential=build.make_vector_potential(spec["field"], dev, opts0.field_units, opts0.solve_time),
+                                     terminal_currents=build.make_currents(spec["currents"], opts0.solve_time)).solve()
+            _ = sol0.tdgl_data
+            seed = sol0 if pr["as_seed"] else None
         opts = build.make_options(spec["options"], dev, output_file="out.h5", **(opts_over or {}))
         solver = build.make_solver(dev, opts, applied_vector_potential=build.make_vector_potential(spec["field"], dev, opts.field_units, opts.solve_time),
-                                   terminal_currents=build.make_currents(spec["currents"], opts.solve_time) if with_currents else None)
+                                   terminal_currents=build.make_currents(spec["currents"], opts.solve_time) if with_currents else None,
+                                   seed_solution=seed)
         fixed = np.array(solver.operators.fixed_sites)
         sol = solver.solve()
         frames, _ = sim.read_frames(sol.path)
@@ -94,6 +111,8 @@ def check_case(spec):
     driven = spec["field"]["kind"] != "zero" or spec["currents"] is not None
     res.label(f"terminal_psi={kind}", f"terminals={len(spec['device']['terminals'])}", "driven" if driven else "undriven",
               "screening" if spec["options"]["include_screening"] else "no screening")
+    if spec.get("prior"):
+        res.label(f"same device simulated before with terminal_psi={spec['prior']['kind']}" + (", used as the starting state" if spec["prior"]["as_seed"] else ""))
     try:
         frames, fixed, opts = _run(dev, spec)
     except RuntimeError as exc:
@@ -127,7 +146,7 @@ def check_case(spec):
     else:
         # unset: terminal sites evolve like any other site <=> same result as a device without terminals
         # (only comparable when no current is injected)
-        if spec["currents"] is None:
+        if spec["currents"] is None and not (spec.get("prior") and spec["prior"]["as_seed"]):
             d2 = dict(spec["device"], terminals=[])
             dev2 = build.make_device(d2, cache=False, with_mesh=False)
             dev2.mesh = dev.mesh
